@@ -21,7 +21,7 @@ struct Ctx16 {
     bool has_mutex = true;
     long live_entries = 0;              // model: entries currently in the container
     int destroys_in_flight = 0;
-    bool lbl_reentered = false, lbl_dtor_in_container_dtor = false, lbl_timeout = false, lbl_concurrent_destroy = false, lbl_shared_survived = false;
+    bool lbl_reentered = false, lbl_dtor_in_container_dtor = false, lbl_timeout = false, lbl_concurrent_destroy = false, lbl_shared_survived = false; int lbl_batch = 0;
     Info16& fresh(int reenter) { infos.emplace_back(); infos.back().id = (int)infos.size() - 1; infos.back().reenter = reenter; return infos.back(); }
 };
 Ctx16* C16 = nullptr;
@@ -80,7 +80,18 @@ vh::Outcome run_c16(const vh::Case& c, bool concurrent, bool locked_class) {
             auto run_ops = [&](const std::vector<vh::Op>& ops) {
                 for (auto& op : ops) {
                     int kind = op.code % 8;
-                    if (kind == 0 || kind == 7) {                   // add fresh, unshared
+                    if ((kind == 0 || kind == 7) && (op.b >> 2) == 7) {   // a large batch of fresh, unshared objects: one sweep reaps dozens / hundreds at once
+                        static const int batch[4] = {33, 40, 70, 300};
+                        int nb = batch[op.a % 4];
+                        X.lbl_batch = std::max(X.lbl_batch, nb);
+                        for (int q = 0; q < nb; ++q) {
+                            Info16& in = X.fresh(0);
+                            auto p = std::make_shared<Obj16>(&in);
+                            in.entries++; X.live_entries++; adds++;
+                            dd->addObjectsToBeDestroyed(std::move(p));
+                            in.add_ret = vrt::now_step();
+                        }
+                    } else if (kind == 0 || kind == 7) {            // add fresh, unshared
                         Info16& in = X.fresh((op.b & 1) ? 1 + op.a % 3 : 0);
                         auto p = std::make_shared<Obj16>(&in);
                         in.entries++; X.live_entries++; adds++;
@@ -157,6 +168,7 @@ vh::Outcome run_c16(const vh::Case& c, bool concurrent, bool locked_class) {
     if (X.lbl_timeout) out.labels.push_back("lock-timeout");
     if (X.lbl_concurrent_destroy) out.labels.push_back("concurrent-destroyObjects");
     if (X.lbl_shared_survived) out.labels.push_back("shared-object-survived");
+    if (X.lbl_batch) out.labels.push_back("batch=" + std::to_string(X.lbl_batch));
     if (with_cb) out.labels.push_back("callback");
     out.labels.push_back(locked_class ? "class=locked" : "class=single-thread");
     if (out.res.faults_fired) out.labels.push_back("fault-fired");
@@ -604,7 +616,7 @@ vh::Outcome run_c18(const vh::Case& c, bool concurrent) {
 
 // ------------------------------------------------------------------------------------------------ registration
 vh::GenSpec s16(bool conc, bool th, bool faults = false) {
-    vh::GenSpec g; g.sequential = !conc; g.nfibers = conc ? 4 : 1; g.max_ops = conc ? (th ? 6 : 4) : (th ? 20 : 10); g.ncodes = 8; g.amax = 4; g.bmax = 4; g.cfg_max = {2, 2, 3};
+    vh::GenSpec g; g.sequential = !conc; g.nfibers = conc ? 4 : 1; g.max_ops = conc ? (th ? 6 : 4) : (th ? 20 : 10); g.ncodes = 8; g.amax = 4; g.bmax = 32; g.cfg_max = {2, 2, 3};
     g.sched_len = th ? 224 : 160; g.aux_len = 40; g.aux_density = 25;
     if (faults) { g.fault_max = 6; g.fault_mask = vrt::F_CALLBACK; g.cfg_max = {2, 1, 3}; }
     return g;
